@@ -706,6 +706,8 @@ def fuzz(rng, text):
         u, n = rng.choice([("\\u", 4), ("\\U", 8)])
         esc = u + "".join(rng.choice("0e9aF") for _ in range(rng.randint(0, n - 1))) + rng.choice(MULTIBYTE + ["g", "", "é"])
         at = rng.randint(1, max(1, len(t) - 1))
+        if rng.random() < 0.3:
+            return " ".join(toks[:j] + [t[:at] + esc]), f"text ends inside a unicode escape in token {j}"
         return " ".join(toks[:j] + [t[:at] + esc + t[at:]] + toks[j + 1:]), f"broken unicode escape inside token {j}"
     if k == 0:
         return " ".join(toks[:i]), f"truncate after token {i}"
